@@ -71,7 +71,7 @@ def gen_seq(rng, tier):
 OPS = ['sum', 'mean', 'min', 'max', 'variance', 'stddev', 'fvariance', 'fstddev']
 
 
-def cases(tier, rng):
+def _cases(tier, rng):
     yield {'kind': 'mux', 'term': [['fvariance', None, False]], 'items': [1, 2, 4]}
     yield {'kind': 'plain', 'term': [['variance', None, False]], 'items': [f2j(1e6 + 0.1), f2j(1e6 + 0.2), f2j(1e6 + 0.4)]}
     yield {'kind': 'mux', 'term': [['variance', None, False]], 'items': [0, 1, 2, 3, 4]}
@@ -181,7 +181,7 @@ def judge(op, red, km, xs, outs):
     return None
 
 
-def oracle(case, r):
+def _oracle(case, r):
     if 'harness_exc' in r:
         return 'real code raised: ' + r['harness_exc']
     if r.get('raised'):
@@ -245,3 +245,14 @@ def tags(case, r):
 
 def violation_class(case, text):
     return text.split('(')[0][:30]
+
+
+def cases(tier, rng):
+    """every case of `_cases`, and for a fraction of them the same case run as the SECOND subscription of its pipeline
+    object (formal.variance keeps its items in a list that is the seed of a scan)"""
+    pr = rng.sub('resubscription')
+    return muxprop.with_preludes(_cases(tier, rng), pr, frac=0.25)
+
+
+def oracle(case, r):
+    return muxprop.prelude_violation(case, r) or _oracle(case, r)
